@@ -79,6 +79,8 @@ type (
 	pcapOverIPEndpoint struct {
 		PcapOverIPEndpointInfo
 		cancel func()
+		// protects the statistics in PcapOverIPEndpointInfo, they are updated by the endpoint's goroutine
+		mutex sync.Mutex
 	}
 	pcapOverIPPacket struct {
 		linkType layers.LinkType
@@ -2278,7 +2280,9 @@ func (mgr *Manager) newPcapOverIPEndpoint(ctx context.Context, address string) *
 				sl := handle.SnapLen()
 				log.Printf("Connection to PCAP-over-IP endpoint %q established (using linkType %s and snaplen %d)\n", endpoint.Address, lt.String(), sl)
 
+				endpoint.mutex.Lock()
 				endpoint.LastConnected = time.Now().UnixNano()
+				endpoint.mutex.Unlock()
 				for {
 					data, ci, err := handle.ReadPacketData()
 					if err != nil {
@@ -2286,12 +2290,16 @@ func (mgr *Manager) newPcapOverIPEndpoint(ctx context.Context, address string) *
 						return
 					}
 					mgr.pcapOverIPPackets <- pcapOverIPPacket{lt, data, ci}
+					endpoint.mutex.Lock()
 					endpoint.ReceivedPackets++
+					endpoint.mutex.Unlock()
 				}
 			}()
+			endpoint.mutex.Lock()
 			if endpoint.LastDisconnected <= endpoint.LastConnected {
 				endpoint.LastDisconnected = time.Now().UnixNano()
 			}
+			endpoint.mutex.Unlock()
 			select {
 			case <-ctx.Done():
 				return
@@ -2302,12 +2310,18 @@ func (mgr *Manager) newPcapOverIPEndpoint(ctx context.Context, address string) *
 	return endpoint
 }
 
+func (e *pcapOverIPEndpoint) info() PcapOverIPEndpointInfo {
+	e.mutex.Lock()
+	defer e.mutex.Unlock()
+	return e.PcapOverIPEndpointInfo
+}
+
 func (mgr *Manager) ListPcapOverIPEndpoints() []PcapOverIPEndpointInfo {
 	c := make(chan []PcapOverIPEndpointInfo)
 	mgr.jobs <- func() {
 		endpoints := make([]PcapOverIPEndpointInfo, 0, len(mgr.pcapOverIPEndpoints))
 		for _, e := range mgr.pcapOverIPEndpoints {
-			endpoints = append(endpoints, e.PcapOverIPEndpointInfo)
+			endpoints = append(endpoints, e.info())
 		}
 		c <- endpoints
 		close(c)
@@ -2330,7 +2344,7 @@ func (mgr *Manager) AddPcapOverIPEndpoint(address string) error {
 			mgr.pcapOverIPEndpoints = append(mgr.pcapOverIPEndpoints, mgr.newPcapOverIPEndpoint(context.Background(), address))
 			endpoints := make([]PcapOverIPEndpointInfo, 0, len(mgr.pcapOverIPEndpoints))
 			for _, e := range mgr.pcapOverIPEndpoints {
-				endpoints = append(endpoints, e.PcapOverIPEndpointInfo)
+				endpoints = append(endpoints, e.info())
 			}
 			mgr.event(Event{
 				Type:                "pcapOverIPEndpointsUpdated",
@@ -2358,7 +2372,7 @@ func (mgr *Manager) DelPcapOverIPEndpoint(address string) error {
 			mgr.pcapOverIPEndpoints = slices.Delete(mgr.pcapOverIPEndpoints, toDelete, toDelete+1)
 			endpoints := make([]PcapOverIPEndpointInfo, 0, len(mgr.pcapOverIPEndpoints))
 			for _, e := range mgr.pcapOverIPEndpoints {
-				endpoints = append(endpoints, e.PcapOverIPEndpointInfo)
+				endpoints = append(endpoints, e.info())
 			}
 			mgr.event(Event{
 				Type:                "pcapOverIPEndpointsUpdated",
